@@ -813,11 +813,13 @@ func vsRunRT(res *vResult, bi, si int, c *vsCase, raw json.RawMessage) {
 	if t.hasKind("map") {
 		reps = 64
 	}
+	encOK := true
 	for r := 0; r < reps; r++ {
 		var got []byte
 		var merr error
 		pm := vTry(func() { got, merr = Marshal(val.Interface()) })
 		res.Cmp()
+		encOK = pm == "" && merr == nil && bytes.Equal(got, exp)
 		if pm != "" {
 			sig := "C11/encode/panic/" + t.kindPath()
 			if t.hasOptEnum() && strings.Contains(pm, "IndexValue called using nil") {
@@ -839,6 +841,26 @@ func vsRunRT(res *vResult, bi, si int, c *vsCase, raw json.RawMessage) {
 			}
 			res.Fail(bi, si, "rt", "Marshal", vHex(exp), vHex(got), sig, raw)
 			break
+		}
+	}
+	// --- an encoding is a function of the value: the same Marshal straight after calls that FAILED part-way (an encoder that
+	// had already written a length and an element, a decoder that ran out of input) gives the same canonical bytes
+	if encOK {
+		_ = vTry(func() {
+			_, _ = Marshal([]*big.Int{big.NewInt(1), nil})
+			_, _ = Marshal(struct {
+				A uint16
+				B chan int
+			}{A: 0x0408})
+			var xs []uint32
+			_ = Unmarshal([]byte{0x0c, 1, 0, 0, 0}, &xs)
+		})
+		var got []byte
+		var merr error
+		pm := vTry(func() { got, merr = Marshal(val.Interface()) })
+		res.Cmp()
+		if pm != "" || merr != nil || !bytes.Equal(got, exp) {
+			res.Fail(bi, si, "rt", "Marshal after failed calls", vHex(exp), fmt.Sprintf("%s err=%v %s", vHex(got), merr, pm), "C11/encode/after-failed-calls", raw)
 		}
 	}
 	// --- the same bytes into a NAMED Go type with the same encoded fields plus unexported ones in between (named struct
